@@ -26,6 +26,7 @@ type c11Reply struct {
 	serial  uint32
 	timing  string // must | grey | late  (loopback layer)
 	sendOff time.Duration
+	at      time.Duration // > 0: planned offset of a grey reply (replies that keep arriving while the collection ends)
 }
 
 // c11Mix builds a random reply list for a discovery.
@@ -275,7 +276,9 @@ func c11Loopback(c *Ctx) {
 						case "must":
 							at = time.Duration(i) * T / 2 / time.Duration(len(replies)+1)
 						case "grey":
-							at = T*7/10 + time.Duration(i)*time.Millisecond
+							if at = T*7/10 + time.Duration(i)*time.Millisecond; rep.at > 0 {
+								at = rep.at
+							}
 						case "late":
 							at = T + 350*time.Millisecond
 						}
@@ -323,12 +326,26 @@ func c11Loopback(c *Ctx) {
 				replies := c11Mix(r, nReplies, serials)
 				// timing classes keep the send order: must..., then grey..., then late...
 				nLate, nGrey := r.Pick(3), r.Pick(3)
+				straddle := i%6 == 4 && !queued
+				if straddle {
+					// replies are still arriving when the collection ends: a steady stream from 40 ms before to 40 ms after the deadline
+					// (what of it is in the result is don't-care; the result must be intact and the call must not fail)
+					replies = append(replies, c11Mix(r, 80+r.Pick(170), serials)...)
+					nLate, nGrey = 0, len(replies)-r.Pick(6)
+					if nGrey < 0 {
+						nGrey = len(replies)
+					}
+					c.Res.Count("loopback:discoveries-with-replies-straddling-the-deadline", 1)
+				}
 				for k, rep := range replies {
 					switch {
 					case k >= len(replies)-nLate:
 						rep.timing = "late"
 					case k >= len(replies)-nLate-nGrey:
 						rep.timing = "grey"
+						if straddle {
+							rep.at = T - 40*time.Millisecond + time.Duration(k-(len(replies)-nGrey))*80*time.Millisecond/time.Duration(nGrey)
+						}
 					default:
 						rep.timing = "must"
 					}
